@@ -74,7 +74,37 @@ def rand_pair(rng, case):
     return (d0, [n0, den]), (d1, [n1, den])
 
 
+def infinity_stream(ctx):
+    """Saturated (+inf) pixels, min_npix only: pruning afterwards equals computing with the stricter min_npix (an
+    infinite plateau measured against its own level passes min_delta=0 in both).  Oracle only."""
+    import numpy as np
+    from astrodendro import Dendrogram
+    rng = ctx.rng('c08-inf')
+    for it in range(120 if ctx.quick else 1200):
+        shape = rng.choice([(rng.randint(4, 10),), (3, 4), (2, 6)])
+        n = int(np.prod(shape))
+        vals = [rng.choice([1.0, 2.0, 3.0, 4.0, 0.0, np.inf, np.inf]) for _ in range(n)]
+        if not any(np.isfinite(v) and v > 0 for v in vals):
+            vals[0] = 1.0
+        arr = np.array(vals).reshape(shape)
+        n0, n1 = rng.choice([0, 1]), rng.randint(1, 3)
+        info = {'stream': 'infinite pixels', 'shape': list(shape), 'data': repr(vals), 'min_npix': [n0, n1]}
+        try:
+            da = Dendrogram.compute(arr.copy(), min_value=0.5, min_npix=n0)
+            da.prune(min_npix=n1)
+            db = Dendrogram.compute(arr.copy(), min_value=0.5, min_npix=max(n0, n1))
+            ha, hb = impl.impl_hierarchy(da, shape), impl.impl_hierarchy(db, shape)
+            fails = [] if ha == hb else ['compute(min_npix=%d).prune(min_npix=%d) %s differs from compute(min_npix=%d) %s' % (n0, n1, ha, max(n0, n1), hb)]
+        except Exception as e:
+            fails = ['raised %r' % (e,)]
+        ctx.count('infinite_pixel_pairs')
+        ctx.case_done(None, ('c08-inf', repr(vals), shape, n0, n1))
+        if fails:
+            ctx.oracle_failure(info, fails, {'repaired_ok': False, 'involves_delta': False})
+
+
 def explore(ctx):
+    infinity_stream(ctx)
     rng = ctx.rng('c08')
     # the witness of the refutation theorem, replayed on the implementation
     eq, ha, hb, _, _ = verdict(WITNESS, (0, [0, 1]), (1, [0, 1]))
